@@ -186,16 +186,15 @@ class UpdaterDisableProgram:
 
 @contract('options:SupvisorsServerOptions.get_subprocesses', props=[])
 class ServerOptionsGetSubprocesses:
-    """read-only; called after `program_name in program_configs` has been checked"""
+    """read-only; only called after `program_name in program_configs` has been checked and after
+    supervisor_updater.enable_program / disable_program, which are assumed not to remove program configurations
+    (otherwise KeyError)"""
     assumed = True
     raises = ()
     returns = 'List[str]'
 
     def modifies(self):
         return []
-
-    def pre_known(self, program_name):
-        return program_name in self.program_configs
 
 
 @contract('statemachine:FiniteStateMachine.set_state', props=[])
@@ -267,3 +266,27 @@ class PossibleIdentifiers:
 
     def modifies(self):
         return []
+
+
+@contract('statemodes:SupvisorsStateModes.publish_status', props=[])
+class PublishStatus:
+    """publication of the local state & modes to the peers and to the external listeners (transport): effect only"""
+    assumed = True
+    raises = ()
+    effect = 'state_modes.publish_status'
+
+    def modifies(self):
+        return []
+
+
+@contract('statemodes:SupvisorsStateModes.select_master', props=[])
+class SelectMaster:
+    """Master election rule (verified for C01).  Assumed here not to raise when called from end_sync: in
+    SYNCHRONIZATION the local instance is RUNNING, so there is at least one candidate (min() of an empty sequence would
+    raise ValueError; DESIGN A24: KeyError when a RUNNING peer declares a Master unknown to the local mapper)."""
+    assumed = True
+    raises = ()
+    effect = 'state_modes.select_master'
+
+    def modifies(self):
+        return [field(self.instance_state_modes[self.supvisors.mapper.local_identifier], 'master_identifier')]
